@@ -8,7 +8,8 @@ RULE = ("dbhist: databases built with tiny memtable/file/block sizes (entries of
         "key) followed by iterator scripts of seek/seek_to_first/seek_to_last/next/prev with frequent "
         "direction reversals, compared with the sorted-map cursor of the specification; plus all "
         "scripts of length <= 4 (quick) / 5 (thorough) over the alphabet {first,last,next,prev,seek "
-        "k1,seek k2} on a fixed multi-level database. Non-trivial: script with at least one direction "
+        "k1,seek k2} on a fixed multi-level database; gap seeks: multi-block tables whose keys share "
+        "prefixes (shortened index separators) and seeks to absent keys between blocks. Non-trivial: script with at least one direction "
         "reversal; distinct by sha1.")
 TRUSTED = ["sorted-map cursor specification (coq/model/DbSpec.v cursor_run); next/prev are only issued on a valid iterator (API precondition: the code asserts it)"]
 ASSUMPTIONS = []
@@ -68,8 +69,51 @@ def gen_cases(tier, rng):
     return cases
 
 
+def gen_gap_seeks(tier, rng):
+    """multi-block table files with keys sharing prefixes (so that index separators are shortened
+    to keys that are in no block) and seeks to absent keys in the gaps between blocks, followed by
+    steps in both directions; plus the same after writes that add a second child"""
+    cases = []
+    n = 12 if tier == "quick" else 600
+    alpha = [0x61, 0x62, 0x63, 0x65, 0x78]
+    for i in range(n):
+        keys = set()
+        while len(keys) < rng.choice([12, 25, 40]):
+            keys.add(tuple(rng.choice(alpha) for _ in range(rng.choice([2, 3, 3, 4]))))
+        keys = sorted(keys)
+        hexk = ["x" + "".join("%02x" % b for b in k) for k in keys]
+        toks = ["g%d" % i, "%d:%d:%d:%d" % (1 << 20, 1 << 20, rng.choice([32, 64, 128]), rng.randrange(2))]
+        for k in hexk:
+            toks.append("P%s=%s" % (k, "p%d.%d.1" % (rng.randrange(1, 30), rng.randrange(256))))
+        toks += ["C-:-", "W"]
+        if rng.random() < 0.5:
+            for k in rng.sample(hexk, min(4, len(hexk))):
+                toks.append(("D%s" % k) if rng.random() < 0.5 else "P%s=x07" % k)
+        # seek targets: a stored key extended by one byte (falls between that key and the next),
+        # a stored key with its last byte bumped, random keys over the alphabet
+        def target():
+            r = rng.random()
+            k = list(rng.choice(keys))
+            if r < 0.4:
+                k.append(rng.choice([0x00, 0x61, 0x79, 0xff]))
+            elif r < 0.7:
+                k[-1] = min(255, k[-1] + 1)
+            else:
+                k = [rng.choice(alpha) for _ in range(rng.choice([1, 2, 3, 4]))]
+            return "x" + "".join("%02x" % b for b in k)
+        for j in range(3):
+            ops = []
+            for _ in range(rng.randrange(10, 40)):
+                r = rng.random()
+                ops.append("s" + target() if r < 0.45 else rng.choice(["n", "n", "p", "p", "f", "l"]))
+            toks += ["X", "Jj%d:-" % j, "Kj%d:%s" % (j, ",".join(ops))]
+        toks += ["Qj0", "Qj1", "Qj2"]
+        cases.append(" ".join(toks))
+    return cases
+
+
 def suites(tier, seed, rng):
-    return [dbh.DbSuite(dbh.corpus("C04") + gen_cases(tier, rng))]
+    return [dbh.DbSuite(dbh.corpus("C04") + gen_cases(tier, rng) + gen_gap_seeks(tier, rng))]
 
 
 def replay_suites(rp):
